@@ -193,6 +193,20 @@ func (f *frame) staticCall(site siteT, callee *ssa.Function, args []Val, pos tok
 			}
 		}
 	}
+	if (key == "slices.SortFunc" || key == "slices.SortStableFunc" || key == "slices.Sort") && cc != nil && len(cc.Args) >= 1 {
+		// the generic sorts of package slices: same frame, the slice is passed as it is
+		if st, ok := types.Unalias(cc.Args[0].Type()).Underlying().(*types.Slice); ok {
+			sl := f.asTerm(f.get(cc.Args[0]))
+			ekey := elemKey(st.Elem())
+			esort := c.elemSort(st.Elem())
+			arr := c.heapGet(f.heap, ekey, esort)
+			nv := c.fresh(ekey+"~sorted", arrayElemSort(esort))
+			c.heapSet(f.heap, ekey, ite(eq(sBase(sl), tNil), arr, store(arr, sBase(sl), nv)))
+			c.assumed["slices.Sort / SortFunc / SortStableFunc rearrange the elements of their slice argument only; the comparison function has no side effects (the rearranged contents are left unconstrained)"] = true
+			c.externs[key] = true
+			return Tuple{}
+		}
+	}
 	if ct := c.eng.contract(key); ct != nil && !(f.c.eng.inlineOverContract[key]) {
 		var obj *types.Func
 		if o, ok := callee.Object().(*types.Func); ok {
@@ -237,6 +251,7 @@ func (f *frame) inline(site siteT, callee *ssa.Function, args []Val, bindings []
 	c.inlined[funcKey(callee)] = true
 	g := newFrame(c, callee)
 	g.depth = f.depth + 1
+	g.parent = f
 	g.freeVars = bindings
 	g.heap = f.heap
 	g.entry = f.entry
